@@ -17,7 +17,7 @@ Non-trivial = the history has a failing op followed by a succeeding read, or a n
         "int/uint of width 0 may fail or return 0 (no width-0 semantics is stated); width > 128 (signed) / > 127 (unsigned, pinned by the suite) must fail",
     ],
     max_len: 600,
-    quick_cases: 40_000,
+    quick_cases: 120_000,
     thorough_cases: 1_500_000,
     case,
     systematic: None,
